@@ -36,6 +36,7 @@ import (
 //        entry = kind,hash,keyhex,salthex,status(E|D),id  joined by ';' (ids are
 //        handed to keyset.Manager through the randomness tape, in order)
 //   C15|H|<hash>|<key>|<salt>|<info>|<lens>               subtle.ComputeHKDF
+//   C15|R|<hash>|<secret>|<salt or nil>|<info>|<sizes>    the x/crypto hkdf reader, one Read per size (reader.go)
 //   kind: HM (HMAC-PRF) HK (HKDF-PRF) CM (AES-CMAC-PRF); lens: ',' separated output lengths
 // observation
 //   S: rej | ok|o,o,...            (o = hex output or "err"; "-" = empty output)
@@ -167,6 +168,8 @@ func parseEntries(s string) []entrySpec {
 func run(in string) string {
 	f := strings.Split(in, "|")
 	switch f[1] {
+	case "R":
+		return runReader(f)
 	case "S":
 		p, err := subtleNew(f[2], f[3], hx.UH(f[4]), hx.UH(f[5]))
 		if err != nil {
@@ -445,6 +448,8 @@ func check(in, obs string) string {
 	f := strings.Split(in, "|")
 	o := strings.Split(obs, "|")
 	switch f[1] {
+	case "R":
+		return checkReader(f, obs)
 	case "S":
 		kb := hx.UH(f[4])
 		valid := true
@@ -727,6 +732,8 @@ func gen(r *hx.Rng, n int, tier string) []string {
 			}
 			kb := r.Bytes(r.Pick([]int{0, 1, 16, 32, 64, 65, 129, r.Intn(200)}))
 			lines = append(lines, fmt.Sprintf("C15|H|%s|%s|%s|%s|%s", h, hx.H(kb), hx.H(genSalt(r, h)), hx.H(genInput(r, false)), genLens(r, 255*d, true)))
+		case x < 70: // the x/crypto hkdf reader under arbitrary read schedules
+			lines = append(lines, genReader(r))
 		default: // PRF sets
 			k := 1 + r.Intn(4)
 			var es []entrySpec
@@ -779,6 +786,8 @@ func class(in, obs string) string {
 	}
 	o := strings.Split(obs, "|")
 	switch f[1] {
+	case "R":
+		return classReader(f, obs)
 	case "S":
 		if obs == "rej" {
 			return "S:" + f[2] + ":" + f[3] + ":rej"
